@@ -24,9 +24,9 @@ import (
 func init() {
 	Register(&Check{
 		Spec: core.Spec{ID: "C14", Level: "exploration",
-			Rule:        "two parts. (end to end) case = 2-4 writers ingesting and flushing continuously (each ack recorded with a logical tick), a merger looping with small limits, 4-12 query loops, over (a) MemDataStore that really deletes on tombstone + MemoryMetaStore and (b) FileSystemDataStore as both stores; PRNG delays at fs.scan.listed, mem.snapshot.taken, merge.beforeUpdate/afterUpdate, query.fileStage.next and at store calls; under -race. Per query: Err == nil => every matching row acked before the query's start tick appears exactly once; always: no row twice, no row never ingested. (mechanism) short concurrent histories (<= 4 clients, <= 40 ops) of MemoryMetaStore.Update and snapshot iterations with unique pointers, checked linearizable with porcupine against a set-of-pointers model. non-trivial = query whose lifetime overlapped a committed merge or a flush / porcupine history with overlapping ops; distinct = distinct (run, query index) / distinct histories",
+			Rule:        "two parts. (end to end) case = 2-4 writers ingesting and flushing continuously (each ack recorded with a logical tick), a merger looping with small limits, 4-12 query loops (match-all and Field queries; under a partition function one loop in four runs PartitionEquals/PartitionNotEquals prefilters over the partitions acknowledged so far, owed exactly the acknowledged rows whose own non-empty partition id satisfies the condition), over (a) MemDataStore that really deletes on tombstone + MemoryMetaStore and (b) FileSystemDataStore as both stores; PRNG delays at fs.scan.listed, mem.snapshot.taken, merge.beforeUpdate/afterUpdate, query.fileStage.next and at store calls; under -race. Per query: Err == nil => every matching row acked before the query's start tick appears exactly once; always: no row twice, no row never ingested. (mechanism) short concurrent histories (<= 4 clients, <= 40 ops) of MemoryMetaStore.Update and snapshot iterations with unique pointers, checked linearizable with porcupine against a set-of-pointers model. non-trivial = query whose lifetime overlapped a committed merge or a flush / porcupine history with overlapping ops; distinct = distinct (run, query index) / distinct histories",
 			Assumptions: []string{"'acknowledged before the query started' = the harness received the nil answer before it took the query's start tick", "porcupine Unknown (timeout) is inconclusive, never a violation"},
-			Floors:      map[string]int64{"queries": 300, "queries_overlapping_merge": 30, "porcupine_histories": 50}},
+			Floors:      map[string]int64{"queries": 300, "queries_overlapping_merge": 30, "porcupine_histories": 50, "queries_with_partition_prefilter": 10}},
 		Cases:       func(t string) int { return nQueries(t, 24, 500) },
 		Run:         runC14,
 		RaceMatters: true,
@@ -94,6 +94,7 @@ func runC14(rc *RunCtx, i int) {
 	var mu sync.Mutex           // ledger
 	acked := map[string]int64{} // vid -> ack tick
 	ingested := map[string]bool{}
+	partOf := map[string]string{} // vid -> the partition id the engine's PartitionFunc gives the row
 	var merges []*c14Merge
 	var curMerge *c14Merge
 	w.IMeta.BeforeUpdate = func(ws []bs.WriteOperation, ds []bs.DeleteOperation) {
@@ -165,6 +166,7 @@ func runC14(rc *RunCtx, i int) {
 				mu.Lock()
 				for _, rec := range recs {
 					ingested[rec.VID] = true
+					partOf[rec.VID] = rec.Part
 				}
 				mu.Unlock()
 				ch := make(chan error, 2)
@@ -224,6 +226,8 @@ func runC14(rc *RunCtx, i int) {
 		ackedAt0 map[string]bool
 		res      *world.QueryResult
 		q        *bs.Query
+		part     string // non-empty: the query carries a partition prefilter on this id ...
+		partNeg  bool   // ... PartitionNotEquals instead of PartitionEquals
 	}
 	var qmu sync.Mutex
 	var qrecs []*qrec
@@ -248,13 +252,37 @@ func runC14(rc *RunCtx, i int) {
 				for vid := range acked {
 					snap[vid] = true
 				}
+				// One loop in four (under a partition function) runs partition-prefiltered
+				// queries next to the unfiltered ones: they keep some blocks of a
+				// multi-partition file and drop others, so whatever a query does to the
+				// listing it was handed is visible to the queries and merges around it.
+				part, partNeg := "", false
+				if ql%4 == 1 && spec.Part.Fn != nil {
+					var parts []string
+					seen := map[string]bool{}
+					for vid := range acked {
+						if pp := partOf[vid]; pp != "" && !seen[pp] {
+							seen[pp] = true
+							parts = append(parts, pp)
+						}
+					}
+					if len(parts) > 0 {
+						sort.Strings(parts)
+						part, partNeg = parts[(ql+3*k)%len(parts)], k%2 == 1
+						cond := bs.PartitionEquals(part)
+						if partNeg {
+							cond = bs.PartitionNotEquals(part)
+						}
+						q = bs.NewQuery().MatchPrefilter(bs.Partition(cond)).Build()
+					}
+				}
 				mu.Unlock()
 				ctx, cancel := context.WithTimeout(context.Background(), core.Patience)
 				res := world.RunQuery(ctx, e, q)
 				cancel()
 				t1 := clock.Tick()
 				qmu.Lock()
-				qrecs = append(qrecs, &qrec{t0: t0, t1: t1, ackedAt0: snap, res: res, q: q})
+				qrecs = append(qrecs, &qrec{t0: t0, t1: t1, ackedAt0: snap, res: res, q: q, part: part, partNeg: partNeg})
 				qmu.Unlock()
 				time.Sleep(100 * time.Microsecond)
 			}
@@ -304,8 +332,18 @@ func runC14(rc *RunCtx, i int) {
 				dups = append(dups, vid)
 			}
 		}
+		if q.part != "" {
+			rc.Res.Count("queries_with_partition_prefilter", 1)
+		}
 		if q.res.Err == nil {
 			for vid := range q.ackedAt0 {
+				if q.part != "" {
+					// a row is owed by a partition-prefiltered query only if its own
+					// (non-empty) partition id satisfies the condition
+					if pp := partOf[vid]; pp == "" || (pp == q.part) == q.partNeg {
+						continue
+					}
+				}
 				if q.res.VIDs[vid] == 0 {
 					missing = append(missing, vid)
 				}
